@@ -51,7 +51,11 @@ fn gen(seed: u64, idx: u64, tier: Tier) -> Plan {
     };
     plan.params.insert("grease_p".into(), s.fault_pct);
     plan.server = Some(s);
-    valid_bursts(&mut rng, &mut plan, &wl);
+    let end = valid_bursts(&mut rng, &mut plan, &wl);
+    if scenario != "c02.grease" && rng.chance(1, 3) {
+        let rounds = 1 + rng.below(3) as u32;
+        retransmissions(&mut rng, &mut plan, rounds, wl.sockets, end + 2_000);
+    }
     settle(&mut plan, 400);
     plan
 }
